@@ -207,6 +207,7 @@ Definition run_b (op : nat) (r : boxops IX) (a : list xq) : list xq :=
   | 20 => out_box r (b_inter r (box_of r 0 a) (box_of r 2 a))
   | 21 => xb (b_disjoint r (box_of r 0 a) (box_of r 2 a))
   | 22 => comps r (b_center r (box_of r 0 a))
+  | 24 => xb (r_isempty r (b_inter r (box_of r 0 a) (box_of r 2 a)))
   | _ => bad
   end%nat.
 
@@ -253,4 +254,5 @@ Definition run (op code : nat) (a : list xq) : list xq :=
   else if Nat.ltb op 20 then match find_a code with Some r => run_a op r a | None => bad end
   else if Nat.ltb op 23 then match find_b code with Some r => run_b op r a | None => bad end
   else if Nat.eqb op 23 then match find_t code with Some r => xb (t_touching r (box_of r 0 a) (box_of r 2 a)) | None => bad end
+  else if Nat.eqb op 24 then match find_b code with Some r => run_b op r a | None => bad end
   else run_misc op code a.
